@@ -416,7 +416,7 @@ impl C13 {
         let classes: &[&str] = if is_bed {
             &["letters", "negative", "fraction", "leading-blank", "trailing-blank", "empty", "overflow", "column-removed", "column-appended"]
         } else {
-            &["letters", "negative", "fraction", "leading-blank", "trailing-blank", "empty", "overflow", "column-removed", "column-appended", "phase-letter", "phase-3-255", "phase-256+", "phase-negative"]
+            &["letters", "negative", "fraction", "leading-blank", "trailing-blank", "empty", "overflow", "column-removed", "column-appended", "phase-letter", "phase-3-255", "phase-256+", "phase-empty", "phase-dots", "phase-digit-dot", "phase-negative"]
         };
         let cls = *rng.pick(classes);
         let vline = &mut bad[victim];
@@ -446,6 +446,10 @@ impl C13 {
             "phase-letter" => vline[7] = "x".into(),
             "phase-3-255" => vline[7] = format!("{}", rng.range(3, 255)),
             "phase-256+" => vline[7] = format!("{}", 256 + rng.below(1000)),
+            // the placeholder is exactly one '.'; an empty column, several dots, or a digit next to a dot are not a phase
+            "phase-empty" => vline[7] = String::new(),
+            "phase-dots" => vline[7] = ".".repeat(rng.range(2, 4)),
+            "phase-digit-dot" => vline[7] = if rng.chance(1, 2) { format!("{}.", rng.below(3)) } else { format!(".{}", rng.below(3)) },
             _ => vline[7] = format!("-{}", 1 + rng.below(2)),
         }
         let mut data = String::new();
@@ -640,7 +644,7 @@ impl Monitor for C13 {
          empty strings; chrom not starting with '#'; coordinates over the full u64 range) or GFF3/GFF2/GTF2 records (all nine columns, score/strand/phase incl. '.', 0-4 attribute keys \
          with 1-3 values each, keys/values avoiding the dialect's delimiter, terminator, value separator, quotes, TAB/CR/LF), with and without interleaved comment lines; records read \
          back must be field-for-field equal (attribute multimap per key in order). corruption case = one record of a valid file corrupted with a certain outcome (start/end replaced by \
-         letters / negative / fraction / leading or trailing blank / empty / > u64::MAX; phase letter / 3..=255 / 256+ / negative; column removed; column appended): that record must be Err, \
+         letters / negative / fraction / leading or trailing blank / empty / > u64::MAX; phase letter / 3..=255 / 256+ / negative / empty / several dots / digit next to a dot; column removed; column appended): that record must be Err, \
          every other record that is Ok must equal the file. file case = Writer::to_file / Reader::from_file (and GffType::from_str) with a long, a short and again a long list written to the same path. byte case = random byte edits (quotes, CR, TAB, invalid UTF-8, NUL) or truncation at every offset: no panic, bounded item count, \
          complete lines read back as written. shape = (format/dialect, #aux columns, #keys, max values per key, comments?) / (corruption class, first record?, #columns) / (byte class)"
     }
